@@ -42,7 +42,7 @@ DIRS = ["", "private", "private/deep", "app", "app/public", "app/public/sub", "d
 PREFIXES = ["/", "/private/", "/private", "/private/deep/", "/app/", "/app", "/app/public/", "/app/public/sub/",
             "/docs/", "/docs/inner/", "/pub.gmi", "/private/secret.gmi", "/application/"]
 SENT_RE = re.compile(r"RESOURCE<([^>]*)>")
-CERTS = [None, "ec-a", "rsa-a", "ed-a", "twin-a", "twin-b"]
+CERTS = [None, "ec-a", "rsa-a", "ed-a", "twin-a", "twin-b", "chain:ec-b:ec-a", "chain:ec-b:rsa-a"]
 
 _capsule = None
 
@@ -119,6 +119,8 @@ def covers(prefix: str, L: str):
 
 def reference(rules, L, cert_kind):
     """('admit'|'60'|'61'|'grey')"""
+    if cert_kind and cert_kind.startswith("chain:"):
+        cert_kind = cert_kind.split(":")[1]  # the identity is the leaf; extra certificates in the chain prove nothing
     for r in rules:
         c = covers(r["prefix"], L)
         if c is None:
